@@ -4,8 +4,10 @@ Confirms a seeded change written by a sub-agent (patch applies, demonstration fa
 suite still passes) in the agent's scratch worktree, then applies it to /repo, runs the property's quick check (and any extra
 ones), reverts /repo, and writes /verif/seeded/<Cxx>-<mN>/ with meta.json."""
 import json, os, shutil, subprocess, sys, time
-pid, m = sys.argv[1], sys.argv[2]
-extra = sys.argv[3:]
+args = [a for a in sys.argv[1:] if not a.startswith("--")]
+MODE = ([a for a in sys.argv[1:] if a.startswith("--")] or ["--all"])[0]
+pid, m = args[0], args[1]
+extra = args[2:]
 wt = "/tmp/wt/%s" % pid
 src = "%s/MUTANTS/%s" % (wt, m)
 dst = "/verif/seeded/%s-%s" % (pid, m)
@@ -14,27 +16,33 @@ def sh(cmd, cwd=None, env_=None, timeout=3600):
     p = subprocess.run(cmd, shell=True, cwd=cwd, env=env_ or os.environ, stdout=subprocess.PIPE, stderr=subprocess.STDOUT, text=True, timeout=timeout)
     return p.returncode, p.stdout
 meta = {"property": pid, "mutant": m, "source": "independent sub-agent given only the property text and a scratch worktree"}
-assert sh("git status --porcelain lightworks", cwd=wt)[1].strip() == "", "scratch worktree not clean"
-rc0, _ = sh("/venv/bin/python %s/demo.py" % src, cwd=wt, env_=env)
-rc, out = sh("git apply %s/patch.diff" % src, cwd=wt)
-assert rc == 0, "patch does not apply: " + out
-try:
-    rc1, o1 = sh("/venv/bin/python %s/demo.py" % src, cwd=wt, env_=env)
-    rct, ot = sh("/venv/bin/python -m pytest -q -p no:cacheprovider -n 8 tests 2>&1 | tail -3", cwd=wt, env_=env)
-finally:
-    sh("git checkout -- lightworks", cwd=wt)
-meta["demo_exit_clean"] = rc0
-meta["demo_exit_patched"] = rc1
-meta["repo_tests_with_patch"] = ot.strip().split("\n")[-1]
-meta["confirmed"] = (rc0 == 0 and rc1 != 0 and " passed" in ot and "failed" not in ot)
-print("confirm:", meta["confirmed"], rc0, rc1, meta["repo_tests_with_patch"])
+if MODE == "--check-only":
+    meta = json.load(open(os.path.join(dst, "meta.json")))
+assert MODE == "--check-only" or sh("git status --porcelain lightworks", cwd=wt)[1].strip() == "", "scratch worktree not clean"
+if MODE != "--check-only":
+    rc0, _ = sh("/venv/bin/python %s/demo.py" % src, cwd=wt, env_=env)
+    rc, out = sh("git apply %s/patch.diff" % src, cwd=wt)
+    assert rc == 0, "patch does not apply: " + out
+    try:
+        rc1, o1 = sh("/venv/bin/python %s/demo.py" % src, cwd=wt, env_=env)
+        rct, ot = sh("/venv/bin/python -m pytest -q -p no:cacheprovider -n 4 tests 2>&1 | tail -3", cwd=wt, env_=env)
+    finally:
+        sh("git checkout -- lightworks", cwd=wt)
+    meta["demo_exit_clean"] = rc0
+    meta["demo_exit_patched"] = rc1
+    meta["repo_tests_with_patch"] = ot.strip().split("\n")[-1]
+    meta["confirmed"] = (rc0 == 0 and rc1 != 0 and " passed" in ot and "failed" not in ot)
+    print(pid, m, "confirm:", meta["confirmed"], rc0, rc1, meta["repo_tests_with_patch"])
 os.makedirs(dst, exist_ok=True)
 for f in ("patch.diff", "demo.py", "notes.md"):
     if os.path.exists(os.path.join(src, f)):
         shutil.copy(os.path.join(src, f), dst)
 notes = open(os.path.join(dst, "notes.md")).read() if os.path.exists(os.path.join(dst, "notes.md")) else ""
 meta["needs_to_manifest"] = notes[:1500]
-results = {}
+results = meta.get("checks_run", {})
+if MODE == "--confirm-only":
+    json.dump(meta, open(os.path.join(dst, "meta.json"), "w"), indent=1)
+    sys.exit(0)
 if meta["confirmed"]:
     assert sh("git status --porcelain", cwd="/repo")[1].strip() == "", "/repo not clean"
     rc, out = sh("git apply %s/patch.diff" % dst, cwd="/repo")
